@@ -63,7 +63,13 @@ def scan_harnesses():
     for f in sorted(os.listdir(HARN)):
         if f not in MODPATH:
             continue
-        lines = open(os.path.join(HARN, f), encoding="utf-8").read().split("\n")
+        text = open(os.path.join(HARN, f), encoding="utf-8").read()
+        lines = text.split("\n")
+        # stubs declared inside macro_rules! bodies (harnesses instantiated through a macro)
+        macro_stubs = {}
+        for mm in re.finditer(r"macro_rules!\s*(\w+)\s*\{(.*?)\n\}\n", text, re.S):
+            macro_stubs[mm.group(1)] = [a.strip() + " -> " + b.strip() for a, b in
+                                        re.findall(r"kani::stub\(([^,]+),\s*([^)]+)\)", mm.group(2))]
         i = 0
         while i < len(lines):
             m = re.match(r"\s*// @h (.*)$", lines[i])
@@ -85,9 +91,10 @@ def scan_harnesses():
                         name = n.group(1)
                         break
                     # macro-instantiated harness: `mac!(name, ...)`
-                    n = re.match(r"\s*\w+!\(\s*(\w+)\s*[,)]", lines[j])
+                    n = re.match(r"\s*(\w+)!\(\s*(\w+)\s*[,)]", lines[j])
                     if n:
-                        name = n.group(1)
+                        name = n.group(2)
+                        stubs = stubs + macro_stubs.get(n.group(1), [])
                         break
                     j += 1
                 if name:
